@@ -687,4 +687,9 @@ def c01_wiring(ctx):
     from .C01 import arg_wiring_rule as _r
     return _r(ctx)
 
-RULES = [c01_wiring, dispatch, keys_and_wiring, vocab, parm_offset, mode_raises, glass]
+def c04_vertex_curvature(ctx):
+    """shared with C04: PARM 1 of an EVENASPH surface is the r^2 coefficient"""
+    from .C04 import vertex_curvature as _r
+    return _r(ctx)
+
+RULES = [c04_vertex_curvature, c01_wiring, dispatch, keys_and_wiring, vocab, parm_offset, mode_raises, glass]
